@@ -5,6 +5,7 @@ import (
 	"fmt"
 	"strings"
 	"testing"
+	"time"
 
 	"pgregory.net/rapid"
 
@@ -603,19 +604,29 @@ func c13PipeRun(c c13PipeCase) Verdict {
 		step("QUIT\r\n", 221)
 	}()
 	finished, stuck := false, false
-	r.Hub.WaitUntil(func() bool {
-		select {
-		case <-done:
-			finished = true
-			return true
-		default:
+	w := &harness.Wire{R: r, C: cl, S: sv}
+	parked := ""
+	for deadline := time.Now().Add(harness.Watchdog); !finished && !stuck && parked == "" && time.Now().Before(deadline); {
+		clientWaits := false
+		r.Hub.WaitUntil(func() bool {
+			select {
+			case <-done:
+				finished = true
+				return true
+			default:
+			}
+			if cl.BlockedInWriteLocked() && sv.BlockedInWriteLocked() {
+				stuck = true
+				return true
+			}
+			clientWaits = cl.BlockedInReadLocked()
+			return false
+		}, 50*time.Millisecond)
+		if !finished && !stuck && clientWaits {
+			// the client waits for a reply: is anybody going to write one?
+			parked = w.DeadlockNow()
 		}
-		if cl.BlockedInWriteLocked() && sv.BlockedInWriteLocked() {
-			stuck = true
-			return true
-		}
-		return false
-	}, harness.Watchdog)
+	}
 	var stacks []string
 	if stuck {
 		stacks = harness.BlockedStacks(harness.ServerGoroutines())
@@ -625,8 +636,12 @@ func c13PipeRun(c c13PipeCase) Verdict {
 		<-done
 	}
 	cl.Close()
-	r.B.ReleaseAll()
-	r.Shutdown()
+	if parked != "" {
+		w.GiveUp()
+	} else {
+		r.B.ReleaseAll()
+		r.Shutdown()
+	}
 	v := Verdict{NonTrivial: c.ReadLimit >= 0, Classes: []string{"unbuffered_transport"}}
 	if c.ReadLimit >= 0 {
 		v.Classes = append(v.Classes, "backend_returns_before_end_of_message")
@@ -642,6 +657,9 @@ func c13PipeRun(c c13PipeCase) Verdict {
 			}
 		}
 		return failf("deadlock", "unbuffered transport, sequential client: the client is blocked writing the message (the server does not read it) and the server is blocked writing a reply (the client does not read yet): neither will ever get on\n%s", trimTo(st, 1500))
+	}
+	if parked != "" {
+		return failf("deadlock", "the server is deadlocked: the client waits for a reply and every goroutine serving the connection is parked on a channel or lock:\n%s", trimTo(parked, 2000))
 	}
 	if !finished {
 		return Verdict{Inconclusive: "watchdog in the sequential client"}
